@@ -34,7 +34,11 @@ Inductive val :=
 (* program syntax *)
 
 (* inside a handler: call a resolving function of a program-visible pair *)
-Inductive act := ARes (pr : nat) (v : val) | ARej (pr : nat) (v : val).
+(* AResN / ARejN: the same call made by a NATIVE (Go) handler through an outermost entry point of the
+   Runtime — a NewPromise() resolver, a Callable, or RunString("resK(v)") — so that the entry point's
+   exit path (runWrapped / RunProgram -> leave()) is reached from inside the running job *)
+Inductive act := ARes (pr : nat) (v : val) | ARej (pr : nat) (v : val)
+               | AResN (pr : nat) (v : val) | ARejN (pr : nat) (v : val).
 Inductive ret := RetVal (v : val) | RetArg | Throw (v : val) | Intr.
 (* function(a){ log(id,a); acts; ret } *)
 Record script := mkScript { s_id : nat; s_acts : list act; s_ret : ret }.
@@ -399,8 +403,15 @@ Definition run_ops (ops : list op) (s : state) : state := fold_left exec_op ops 
 (* ---------------------------------------------------------------------------------------------- *)
 (* jobs *)
 
-Definition exec_act (s : state) (a : act) : state :=
-  match a with ARes pr v => resolve_fn (RU pr) v s | ARej pr v => reject_fn (RU pr) v s end.
+(* [cb] = what the exit path of a nested outermost call does to the state (the nested leave()).
+   S: nothing (the specification has no re-entrant host drain); I: [leave_nested], below. *)
+Definition exec_act (cb : state -> state) (s : state) (a : act) : state :=
+  match a with
+  | ARes pr v => resolve_fn (RU pr) v s
+  | ARej pr v => reject_fn (RU pr) v s
+  | AResN pr v => cb (resolve_fn (RU pr) v s)
+  | ARejN pr v => cb (reject_fn (RU pr) v s)
+  end.
 
 (* the steps of a thenable's then(res,rej); a throw ends it and is passed to rej *)
 Fixpoint exec_tsteps (pr : prid) (steps : list tstep) (s : state) : state :=
@@ -419,9 +430,9 @@ Definition crej (c : option prid) (v : val) (s : state) : state :=
 
 (* thenFinally / catchFinally: result := onFinally(); promise := PromiseResolve(C, result);
    return promise.then(valueThunk | thrower) *)
-Definition exec_finally (sc : script) (ful : bool) (arg : val) (cap : option prid) (s : state) : state :=
+Definition exec_finally (cb : state -> state) (sc : script) (ful : bool) (arg : val) (cap : option prid) (s : state) : state :=
   let s := set_log (log s ++ [(s_id sc, VUndef)]) s in
-  let s := fold_left exec_act (s_acts sc) s in
+  let s := fold_left (exec_act cb) (s_acts sc) s in
   let continue (v : val) (s : state) : state :=
     let '(np, s) := promise_resolve v s in
     let '(d, dcap, s) := new_cap_int s in
@@ -434,7 +445,7 @@ Definition exec_finally (sc : script) (ful : bool) (arg : val) (cap : option pri
   | Intr => set_intr true s
   end.
 
-Definition exec_job (j : job) (s : state) : state :=
+Definition exec_job (cb : state -> state) (j : job) (s : state) : state :=
   match j_kind j with
   | JReact r arg =>                                  (* newPromiseReactionJob *)
       let cap := r_cap r in
@@ -442,7 +453,7 @@ Definition exec_job (j : job) (s : state) : state :=
       | HNone => if r_ful r then cres cap arg s else crej cap arg s
       | HUser sc =>
           let s := set_log (log s ++ [(s_id sc, arg)]) s in
-          let s := fold_left exec_act (s_acts sc) s in
+          let s := fold_left (exec_act cb) (s_acts sc) s in
           match s_ret sc with
           | RetVal v => cres cap v s
           | RetArg => cres cap arg s
@@ -456,8 +467,8 @@ Definition exec_job (j : job) (s : state) : state :=
       (* onFulfilled: gen.next(arg) resumes the body after the await; onRejected: gen.nextThrow(arg) *)
       | HAsyncF b => cres cap VUndef (async_step b (set_log (log s ++ [(ab_id b, arg)]) s))
       | HAsyncR b => cres cap VUndef (async_throw b arg s)
-      | HFinF sc => exec_finally sc true arg cap s
-      | HFinR sc => exec_finally sc false arg cap s
+      | HFinF sc => exec_finally cb sc true arg cap s
+      | HFinR sc => exec_finally cb sc false arg cap s
       | HThunkVal v => cres cap v s
       | HThunkThrow v => crej cap v s
       end
@@ -492,36 +503,52 @@ Fixpoint drainS (fuel : nat) (s : state) : state :=
       match queue s with
       | [] => s
       | j :: rest =>
-          let s1 := exec_job j (mark_ran j (set_queue rest s)) in
+          let s1 := exec_job (fun s0 => s0) j (mark_ran j (set_queue rest s)) in
           if intr s1 then drop_all [] s1       (* the host discards the queue on termination *)
           else drainS f s1
       end
   end.
 
-(* I: Runtime.leave():   var jobs []func()
+(* I: Runtime.leave():   if r.draining { return }                       (since f7b1efa)
+                         r.draining = true; defer func() { r.draining = false }()
+                         var jobs []func()
                          for len(r.jobQueue) > 0 { jobs, r.jobQueue = r.jobQueue, jobs[:0]
                                                    for _, job := range jobs { job() } }
                          r.jobQueue = nil
    [jobs] is the batch being ranged over; enqueuePromiseJob appends to [queue].  An interrupt inside
    a job unwinds out of both loops to RunProgram/runWrapped, which calls leaveAbrupt
-   (r.jobQueue = nil): the rest of the batch and the queue are never run. *)
-Fixpoint leaveI (fuel : nat) (jobs : list job) (s : state) : state :=
+   (r.jobQueue = nil): the rest of the batch and the queue are never run.
+
+   A native reaction handler running in a drain that was started with an empty call stack (a Go-side
+   resolver / Callable through runWrapped) may call another outermost entry point; that call ends in
+   leave() again.  [r.draining] is true for exactly the dynamic extent of the outer leave(), so it is
+   rendered as the parameter [flagged] of the loop rather than as a field: with the flag the nested
+   leave() returns at once ([leave_nested true]); [flagged = false] is the code before f7b1efa, where
+   the nested leave() ran a complete drain of its own from inside the job. *)
+Definition leave_nested (draining : bool) (drain : state -> state) (s : state) : state :=
+  if draining then s else drain s.
+
+Fixpoint leaveI_gen (flagged : bool) (fuel : nat) (jobs : list job) (s : state) : state :=
   match fuel with
   | O => match jobs, queue s with [], [] => s | _, _ => set_exhausted true (drop_all jobs s) end
   | S f =>
+      let cb := leave_nested flagged (leaveI_gen flagged f []) in
       match jobs with
       | j :: rest =>
-          let s1 := exec_job j (mark_ran j s) in
-          if intr s1 then drop_all rest s1 else leaveI f rest s1
+          let s1 := exec_job cb j (mark_ran j s) in
+          if intr s1 then drop_all rest s1 else leaveI_gen flagged f rest s1
       | [] =>
           match queue s with
           | [] => s
           | j :: rest =>                              (* swap the buffers, start the next batch *)
-              let s1 := exec_job j (mark_ran j (set_queue [] s)) in
-              if intr s1 then drop_all rest s1 else leaveI f rest s1
+              let s1 := exec_job cb j (mark_ran j (set_queue [] s)) in
+              if intr s1 then drop_all rest s1 else leaveI_gen flagged f rest s1
           end
       end
   end.
+
+Definition leaveI := leaveI_gen true.            (* the current code *)
+Definition leaveI_old := leaveI_gen false.       (* before f7b1efa: re-entrant *)
 
 (* one run = one outermost call into the runtime (RunString / a Go-side resolver through
    runWrapped): execute the ops, drain, record what the embedder sees at return.
@@ -534,5 +561,7 @@ Definition runI1 (fuel : nat) (s : state) (ops : list op) : state := end_run (le
 
 Definition runS (fuel : nat) (runs : list (list op)) : state := fold_left (runS1 fuel) runs init.
 Definition runI (fuel : nat) (runs : list (list op)) : state := fold_left (runI1 fuel) runs init.
+Definition runI_old (fuel : nat) (runs : list (list op)) : state :=
+  fold_left (fun s ops => end_run (leaveI_old fuel [] (run_ops ops s))) runs init.
 
 End WithThenables.
